@@ -5,6 +5,7 @@ Trees (tuples):
   ('var', name)               a sampled variable
   ('c', Fraction)             a rational constant
   ('i',)                      the imaginary unit
+  ('fact0',)                  fact(0) = 1 (only its presence matters: it switches the cutoff to infty_val_fact)
   ('add'|'sub'|'mul', a, b)
   ('neg', a)
   ('divc', a, Fraction)       division by a non-zero constant
@@ -103,6 +104,8 @@ def ev(t, n, env):
         return (Fraction(t[1]), Fraction(0))
     if k == 'i':
         return (Fraction(0), Fraction(1))
+    if k == 'fact0':
+        return (Fraction(1), Fraction(0))
     if k == 'add':
         return v_add(ev(t[1], n, env), ev(t[2], n, env))
     if k == 'sub':
@@ -134,7 +137,7 @@ def subst(t, repl):
     k = t[0]
     if k == 'n':
         return repl
-    if k in ('var', 'c', 'i'):
+    if k in ('var', 'c', 'i', 'fact0'):
         return t
     if k in ('add', 'sub', 'mul', 'pow'):
         return (k, subst(t[1], repl), subst(t[2], repl))
@@ -151,7 +154,7 @@ def uses(t, name):
     k = t[0]
     if k == 'var':
         return t[1] == name
-    if k in ('n', 'c', 'i'):
+    if k in ('n', 'c', 'i', 'fact0'):
         return False
     if k == 'vec':
         return any(uses(x, name) for x in t[1])
@@ -162,7 +165,7 @@ def uses_n(t):
     k = t[0]
     if k == 'n':
         return True
-    if k in ('var', 'c', 'i'):
+    if k in ('var', 'c', 'i', 'fact0'):
         return False
     if k == 'vec':
         return any(uses_n(x) for x in t[1])
@@ -186,6 +189,8 @@ def render(t, var):
         return fr(t[1])
     if k == 'i':
         return 'i'
+    if k == 'fact0':
+        return 'fact(0)'
     if k == 'add':
         return '(%s + %s)' % (render(t[1], var), render(t[2], var))
     if k == 'sub':
